@@ -253,6 +253,49 @@ def _p2c_body(d1, d2):
     return True
 
 
+# file contents that differ from one another in ways a text-mode or decoding reader would not see
+_CONTENTS = (b"x,y\n1,2\n", b"x,y\r1,2\r", b"x,y\r\n1,2\r\n", b"x,y\n1,3\n", b"x,y\n1,2", b"", b"x,y\n\xff,2\n", b"x,y\n1,2\n\x00")
+
+
+def _p2d(i: int, j: int):
+    from crosshair.tracers import NoTracing
+    from vt.engine import assume
+
+    n = len(_CONTENTS)
+    assume(0 <= i < n and 0 <= j < n)
+    ci, cj = next(x for x in range(n) if i == x), next(x for x in range(n) if j == x)
+    with NoTracing():
+        return _p2d_body(ci, cj)
+
+
+def _p2d_body(i, j):
+    """the REAL file digest: the inputs id of a run space referencing a file changes exactly when the file's BYTES change."""
+    import os
+
+    from semantiva.trace.runtime.run_space_identity import RunSpaceIdentityService
+    from vt.props import C08
+
+    if ihash.INSTALLED:
+        ihash.reset()
+    base = C08._ensure_scratch()
+    ids = []
+    for k in (i, j):
+        path = os.path.join(base, "p2d-%d-%d.csv" % (os.getpid(), k))
+        with open(path, "wb") as fh:
+            fh.write(_CONTENTS[k])
+        spec = {"combine": "combinatorial", "max_runs": 5, "dry_run": False, "blocks": [{"mode": "by_position", "context": {}, "source": {"format": "csv", "path": path, "select": None, "rename": {}, "mode": "by_position"}}]}
+        # the path is part of the fingerprint: compare digests of the files, which is what must follow the content
+        svc = RunSpaceIdentityService()
+        try:
+            ids.append(svc._sha256_file(__import__("pathlib").Path(path)))
+        except Exception as e:  # noqa: BLE001
+            return Fail("C09.P2d:file-digest-raises", "digest of a legal source file with bytes %r raised %r" % (_CONTENTS[k], e))
+    same = _CONTENTS[i] == _CONTENTS[j]
+    if same != bool(ids[0] == ids[1]):
+        return Fail("C09.P2d:file-digest-vs-bytes", "file digests %s although the bytes %r / %r %s" % ("equal" if ids[0] == ids[1] else "differ", _CONTENTS[i], _CONTENTS[j], "are equal" if same else "differ"))
+    return True
+
+
 # --------------------------------------------------------------------------------------------- P3
 def _nodes():
     from vt import lib
@@ -270,8 +313,8 @@ def _make_p3(param):
     n, idmode, attempt = param[:3]
     warm = bool(param[3]) if len(param) > 3 else False
 
-    def p3(x0: int, x1: int, x2: int, f0: bool, f1: bool, f2: bool, addend: int):
-        return _p3_body(n, [x0, x1, x2], [f0, f1, f2], addend, idmode, attempt, warm)
+    def p3(x0: int, x1: int, x2: int, f0: bool, f1: bool, f2: bool, addend: int, collide: bool):
+        return _p3_body(n, [x0, x1, x2], [f0, f1, f2], addend, idmode, attempt, warm, True if collide else False)
 
     return p3
 
@@ -281,7 +324,7 @@ def _ser_view(ser):
     return (p.get("ref"), dict(p.get("parameters") or {}), dict(p.get("parameter_sources") or {}), sorted(ser.context_delta.created_keys), sorted(ser.context_delta.updated_keys), ser.status)
 
 
-def _p3_body(n, xs, fs, addend, idmode, attempt, warm=False):
+def _p3_body(n, xs, fs, addend, idmode, attempt, warm=False, collide=False):
     from vt import cliharness, lib
     from vt.memtrace import MemTrace
 
@@ -295,12 +338,17 @@ def _p3_body(n, xs, fs, addend, idmode, attempt, warm=False):
         flags["run_space_launch_id"] = "launch-explicit"
     elif idmode == 1:
         flags["run_space_idempotency_key"] = "idem-key"
+    cli_ctx = {"addend": addend}
+    if collide:
+        # --context also names a key the run space plans: run i must still execute with, and record, run i's planned value
+        # (the property: 'run i produces the same result ... as a standalone run given run i's context')
+        cli_ctx["value"] = addend + 1000
     if warm:
         # history: the identical launch (same launch id / idempotency key, same attempt) already ran once in this process;
         # the launch under test must be bracketed and linked exactly like a first one
-        cliharness.run_cli(config, trace=MemTrace(), ctx={"addend": addend}, **flags)
+        cliharness.run_cli(config, trace=MemTrace(), ctx=dict(cli_ctx), **flags)
     lib.reset_log()
-    rc = cliharness.run_cli(config, trace=tr, ctx={"addend": addend}, **flags)
+    rc = cliharness.run_cli(config, trace=tr, ctx=dict(cli_ctx), **flags)
     cli_log = list(lib.LOG)
     # ---- reference: independent runs, in plan order, stopping after the first failing run
     first_fail = None
@@ -401,9 +449,12 @@ def obligations(tier: str) -> List[Ob]:
            targets=["semantiva/trace/runtime/run_space_launch.py:RunSpaceLaunchManager.create_launch"], stubs=["injective-hash model"]),
         Ob("C09.P2c", lambda _p: _p2c, lambda _p, a: C04._wrap(_p2c_body(a["d1"], a["d2"])), budget=300,
            bound="content digest of the referenced file = symbolic strings d1, d2 (len <= 3) through a stubbed _sha256_file", targets=["semantiva/trace/runtime/run_space_identity.py:RunSpaceIdentityService._rsm_v1_bytes"], stubs=["injective-hash model", "_sha256_file -> symbolic digest"]),
-        Ob("C09.P3", _make_p3, lambda p, a: C04._wrap(_p3_body(p[0], [a["x0"], a["x1"], a["x2"]], [a["f0"], a["f1"], a["f2"]], a["addend"], p[1], p[2], bool(p[3]) if len(p) > 3 else False)), budget=900, per_path=120,
+        Ob("C09.P2d", lambda _p: _p2d, lambda _p, a: C04._wrap(_p2d_body(a["i"], a["j"])), budget=300,
+           bound="real _sha256_file on real files: two contents picked by symbolic indices from 8 byte strings (LF / CR / CRLF variants, one differing cell, missing final newline, empty, invalid UTF-8, trailing NUL)",
+           targets=["semantiva/trace/runtime/run_space_identity.py:RunSpaceIdentityService._sha256_file"], stubs=["injective-hash model"]),
+        Ob("C09.P3", _make_p3, lambda p, a: C04._wrap(_p3_body(p[0], [a["x0"], a["x1"], a["x2"]], [a["f0"], a["f1"], a["f2"]], a["addend"], p[1], p[2], bool(p[3]) if len(p) > 3 else False, a.get("collide", False))), budget=900, per_path=120,
            params=[(n, i, at) for n in (1, 2, 3) for i in (0, 1, 2) for at in (1, 2, 3)] + [(2, i, at, True) for i in (0, 1, 2) for at in (1, 2)],
-           bound="real cli._run, one obligation per (n runs in 1..3, launch-id option, attempt): per-run context values and shared --context value symbolic, failing run chosen by 3 symbolic flags; 6 extra obligations repeat the identical launch after it already ran once in the process; launch-id option (explicit / idempotency key / generated) and attempt 1..3 symbolic; 5-node pipeline",
+           bound="real cli._run, one obligation per (n runs in 1..3, launch-id option, attempt): per-run context values and shared --context value symbolic, --context optionally naming a planned key too (flag), failing run chosen by 3 symbolic flags; 6 extra obligations repeat the identical launch after it already ran once in the process; launch-id option (explicit / idempotency key / generated) and attempt 1..3 symbolic; 5-node pipeline",
            targets=["semantiva/cli/__init__.py:_run", "semantiva/trace/runtime/run_space_emitter.py:RunSpaceTraceEmitter.emit_start", "semantiva/trace/runtime/run_space_emitter.py:RunSpaceTraceEmitter.emit_end", "semantiva/pipeline/pipeline.py:Pipeline.set_run_metadata", "semantiva/execution/orchestrator/orchestrator.py:SemantivaOrchestrator.execute"], stubs=list(STUBS) + cliharness.STUBS),
     ]
 
